@@ -289,7 +289,8 @@ vf_crash_sig(int status, const char * text, char * sig, size_t n)
 		/* b is the pretty function ("int f(struct x *, size_t)"): keep the bare name */
 		{ char * par = strchr(b, '('), * st; if (par != NULL) { *par = 0; st = par; while (st > b && st[-1] != ' ' && st[-1] != '*') st--; memmove(b, st, strlen(st) + 1); } }
 		snprintf(sig, n, "crash:assert:%s:%s", q ? q + 1 : a, b);
-	} else if (WIFSIGNALED(status)) snprintf(sig, n, "crash:signal:%d", WTERMSIG(status));
+	} else if (WIFEXITED(status) && WEXITSTATUS(status) == 79) snprintf(sig, n, "hang:execution-exceeded-cpu-budget");
+	else if (WIFSIGNALED(status)) snprintf(sig, n, "crash:signal:%d", WTERMSIG(status));
 	else snprintf(sig, n, "crash:exit:%d", WEXITSTATUS(status));
 }
 
